@@ -2604,12 +2604,12 @@ Section SigConv.
         destruct (kind_eqb (bk x) KImportItems) eqn:E; [apply Hsub; [apply Hin; left; reflexivity|exact E]|constructor; [assumption|constructor]].
     Qed.
 
-    Lemma cons_convert_import c :
+    Lemma cons_convert_import fs c :
       (let '(p, n) := import_split kind_of children (map bt kids) in
        str_eqb (tsigl (map bt kids)) (tsigl p ++ tsigl n) &&
        all_kept (fun c => match kind_of c with KColon | KStar | KIdent => true | _ => is_expr c end) p &&
        lwalkb (fun c => match kind_of c with KRenamedImportItem | KImportItemPath => true | _ => false end) n false) = true ->
-      post (convert_import swidth cfg kids c) (good_doc (tsigs kids)).
+      post (convert_import swidth cfg fs kids c) (good_doc (tsigs kids)).
     Proof.
       intros Hcl. rewrite import_split_map in Hcl.
       apply andb_prop in Hcl. destruct Hcl as [Hcl Hw]. apply andb_prop in Hcl. destruct Hcl as [Heq Hkeep].
@@ -2649,7 +2649,7 @@ Section SigConv.
         eapply post_bind.
         + unfold convert_import_items, import_items_final, import_items_order. rewrite Hreorder. cbn [andb].
           assert (Hlp : forall nodes', nodes' = n0 :: nr ->
-                    post (l <- lst_process swidth lst_new c nodes'
+                    post (l <- lst_process swidth (lst_with_fold_style lst_new fs) c nodes'
                                  (fun (c0 : ctx) (child : bundle) =>
                                   match bk child with
                                   | KRenamedImportItem => d <- call child (RImportItemRenamed c0) ;; ret (Some d)
@@ -2660,9 +2660,9 @@ Section SigConv.
                          (good_doc (tsigs (n0 :: nr)))).
           { intros nodes' ->. eapply post_bind.
             - eapply post_weaken.
-              + apply (lst_process_sig lst_new c (n0 :: nr) _ (fun b => match bk b with KRenamedImportItem | KImportItemPath => true | _ => false end)).
-                * split; cbn [l_items l_free lst_new]; apply Forall_nil.
-                * cbn [l_peek_hash lst_new].
+              + apply (lst_process_sig (lst_with_fold_style lst_new fs) c (n0 :: nr) _ (fun b => match bk b with KRenamedImportItem | KImportItemPath => true | _ => false end)).
+                * split; cbn [l_items l_free lst_new lst_with_fold_style]; apply Forall_nil.
+                * cbn [l_peek_hash lst_new lst_with_fold_style].
                   apply (lwalkb_lwalk (fun c => match kind_of c with KRenamedImportItem | KImportItemPath => true | _ => false end)); [exact Hsn|exact Hw].
                 * intros c0 b Hin Ha. rewrite Forall_forall in Hgn, Hsn. unfold bk in *.
                   destruct (kind_of (bt b)) eqn:Ekb; try discriminate Ha;
